@@ -279,6 +279,82 @@ def _run_hist(walk, cfg, h, acc):
     return None
 
 
+# ------------------------------------------------------------------ slow subscriber (async managers)
+STALLS = (0.5, 4.0, 6.0, 8.0, 30.0, 61.0)
+
+
+def run_stall(job, acc=None):
+    """A subscriber whose connection takes `delay` virtual seconds for the k-th delivery: reports still arrive in
+    MdibVersion order, none is lost, each arrives once."""
+    mode, history, k, delay = job
+    walk = mdibwalk.Walk(async_mgr=True)
+    consumer_netloc = f'{walk.consumer.verif_owner.ip}:9000'
+    count = {'n': 0}
+
+    def delay_hook(client, path):  # noqa: ARG001
+        if client.netloc != consumer_netloc:
+            return 0
+        count['n'] += 1
+        return delay if count['n'] == k + 1 else 0
+    walk.world.wire.delay_hook = delay_hook
+    n0 = len(walk.world.wire.log)
+    committed = []
+    for name in history:
+        before = walk.provider.mdib.mdib_version
+        try:
+            A.apply(walk.provider, name)
+        except Exception as ex:  # noqa: BLE001
+            return ('provider-raised', type(ex).__name__, repr(ex)[:300])
+        if walk.provider.mdib.mdib_version != before:
+            committed.append(walk.provider.mdib.mdib_version)
+        if acc is not None:
+            acc.transition()
+    # let deliveries that are still pending finish (they would, given time)
+    loop_thread = getattr(walk.provider._soap_client_pool, 'async_loop_subscr_mgr', None)
+    if loop_thread is not None and hasattr(loop_thread.loop, 'run_virtual'):
+        loop_thread.loop.run_virtual(None, None)
+    arrived = []
+    for msg in walk.world.wire.log[n0:]:
+        if msg.netloc != consumer_netloc:
+            continue
+        root = parse_body(msg.data)
+        if root is None or root.get('MdibVersion') is None:
+            continue
+        arrived.append(int(root.get('MdibVersion')))
+    if arrived != sorted(arrived):
+        return ('reports-overtake-each-other', f'delay={delay}', {'arrival_order': arrived, 'stalled_delivery': k})
+    missing = [v for v in committed if v not in arrived]
+    if missing:
+        return ('committed-version-never-delivered', f'delay={delay}', {'missing': missing, 'arrived': arrived})
+    return None
+
+
+def _stall_work(acc, job):
+    acc.trace()
+    acc.evals()
+    res = run_stall(job, acc)
+    acc.state(h64(('stall', repr(job))))
+    if res is None:
+        acc.nontrivial(h64(('stall-ok', repr(job))))
+        return
+    kind, sig, detail = res
+    acc.violation(f'slow-subscriber/{kind}/{sig}/{">".join(job[1])}/stalled={job[2]}', detail,
+                  case={'kind': 'stall', 'job': [job[0], list(job[1]), job[2], job[3]]})
+
+
+def stall_jobs(quick):
+    hs = [['metric(N1,1)', 'metric(N1,2)'], ['metric(N1,1)', 'alert-cond(on)', 'metric(N1,2)'], ['location(1)', 'metric(N1,1)'],
+          ['update-descr+state(N1)', 'metric(N1,1)', 'component(vmd0,on)']]
+    if not quick:
+        hs += [list(h) for h in hist.sequences(A.CORE[:6], 3)[:60]]
+    jobs = []
+    for h in hs:
+        for k in range(min(len(h), 2 if quick else 3)):
+            for d in (STALLS[1:4] if quick else STALLS):
+                jobs.append(('stall', h, k, d))
+    return jobs
+
+
 def _periodic_pass(walk, snaps, acc=None):
     """Run one pass of the real periodic send loop body and check the Periodic*Report messages on the wire."""
     handler = walk.provider._periodic_reports_handler
@@ -376,6 +452,9 @@ def run(ctx):
     jobs = history_jobs(ctx)
     ctx.note('histories', len(jobs))
     ctx.pmap(_work, ctx.rotate(jobs))
+    sj = stall_jobs(ctx.quick)
+    ctx.note('slow_subscriber_cases', len(sj))
+    ctx.pmap(_stall_work, ctx.rotate(sj), chunksize=2)
     try:
         from mcx.checks import c04_sched
     except ImportError:
@@ -392,5 +471,11 @@ def replay(ctx, case):
         if res is not None:
             ctx.violation(f'{res[1]}/{res[2]}/{">".join(case["history"])}', res[3])
         return {'result': None if res is None else list(res[:3])}
+    if case.get('kind') == 'stall':
+        j = case['job']
+        res = run_stall((j[0], list(j[1]), j[2], j[3]))
+        if res is not None:
+            ctx.violation(f'slow-subscriber/{res[0]}/{res[1]}', res[2])
+        return {'result': None if res is None else [res[0], res[1]]}
     from mcx.checks import c04_sched
     return c04_sched.replay(ctx, case)
